@@ -10,11 +10,18 @@ from vlib import ToolError, log
 M_INVS = ["M_ResultRegion", "M_Nesting", "M_Provenance", "M_EventBound", "M_NoPanic", "M_Subdivision", "M_Classification", "M_StatusLineSorted"]
 
 
-def run_model(wd, family="tri", n=2, l=840, stride=1, offset=0, use_shortcuts=True, invs=None, replay=True, timeout=7200):
+def run_model(wd, family="tri", n=2, l=840, stride=1, offset=0, use_shortcuts=True, invs=None, replay=True, timeout=7200, inputs_file=None):
     invs = invs or M_INVS
+    os.makedirs(wd, exist_ok=True)
+    if inputs_file is None:
+        # FileInputs is a constant definition: the variable must name a readable file even when unused
+        inputs_file = os.path.join(wd, "no-inputs.ndjson")
+        open(inputs_file, "w").close()
+    else:
+        family = "file"
     cfg = ("SPECIFICATION Spec\nCONSTANTS\n  Family = \"%s\"\n  N = %d\n  L = %d\n  Stride = %d\n  Offset = %d\n  REPLAY = %s\n  UseShortcuts = %s\nINVARIANTS\n%s\n  ReplayLine\nCHECK_DEADLOCK FALSE\n" % (
         family, n, l, stride, offset, "TRUE" if replay else "FALSE", "TRUE" if use_shortcuts else "FALSE", "\n".join("  " + i for i in invs)))
-    out, dt = vlib.run_tlc("MC_Sweep.tla", cfg, wd, timeout=timeout, workers=14)
+    out, dt = vlib.run_tlc("MC_Sweep.tla", cfg, wd, timeout=timeout, workers=14, env={"MCINPUTS": inputs_file})
     res = vlib.parse_tlc(out, set())
     if res["tool_errors"] or res["violated"]:
         raise ToolError("MC_Sweep(%s, stride %d): the transcription violates a Layer P contract inside TLC or TLC failed: %s (see %s/tlc.log; confirm against the real code before calling it a finding)" % (
@@ -86,8 +93,56 @@ def replay_behaviours(behaviours, wd):
     return len(real), drift, labels
 
 
+def generator_inputs(wd, fam, stride, seed, kind="single", count=None, kmax=3, max_edges=60):
+    """Inputs of a generator family of the harness for Layer M (Family "file"): the operand pairs are taken
+    from recorded sessions (def events, integer frame only), one input per operation."""
+    os.makedirs(wd, exist_ok=True)
+    tmp = os.path.join(wd, "gen-sessions.ndjson")
+    if "en:" in fam:
+        total = int(vlib.vh_out(["enum-total", "--family", fam]))
+        start = seed % stride
+        args = ["rec-ops", "--kind", kind, "--family", fam, "--count", (total - start + stride - 1) // stride, "--seed", seed, "--kmax", kmax, "--max-edges", 400,
+                "--enum-from", start, "--enum-stride", stride]
+    else:
+        args = ["rec-ops", "--kind", kind, "--family", fam, "--count", count, "--seed", seed, "--kmax", kmax, "--max-edges", max_edges]
+    vlib.vh(args, tmp)
+    path = os.path.join(wd, "mc-inputs.ndjson")
+    n = 0
+    seen = set()
+    with open(tmp) as f, open(path, "w") as g:
+        for line in f:
+            d = json.loads(line)
+            defs = {e["name"]: e for e in d["events"] if e["ev"] == "def"}
+            if set(defs) != {"A", "B"} or any(e["k"] != 0 or e.get("opaque") for e in defs.values()):
+                continue
+            a, b = ([[[q[:2] for q in rg] for rg in pl] for pl in defs[x]["mp"]] for x in ("A", "B"))
+            if any(q[2] != 0 for x in ("A", "B") for pl in defs[x]["mp"] for rg in pl for q in rg):
+                continue
+            if not a or not b:
+                continue        # an empty operand never reaches the sweep (covered by the degenerate sessions)
+            key = json.dumps([a, b])
+            if key in seen:
+                continue
+            seen.add(key)
+            for op in ("int", "union", "diff", "xor"):
+                g.write(json.dumps({"A": a, "B": b, "op": op}, separators=(",", ":")) + "\n")
+                n += 1
+    os.remove(tmp)
+    return path, n
+
+
 def model_and_replay(prop, wd, **kw):
+    gen = kw.pop("generator", None)
+    if gen:
+        # (family, stride-or-count, seed): Layer M on the inputs of a generator family of the harness
+        path, n_in = generator_inputs(wd, gen[0], gen[1], gen[2], count=gen[1])
+        kw["inputs_file"] = path
+        kw["family"] = "file:" + gen[0]
+    fam_label = kw.get("family", "tri")
+    if kw.get("inputs_file"):
+        kw["family"] = "file"
     res, behaviours, dt = run_model(wd, **kw)
+    kw["family"] = fam_label
     n, drift, labels = replay_behaviours(behaviours, os.path.join(wd, "replay")) if behaviours else (0, [], {})
     log("[%s] Layer M: MC_Sweep family=%s stride=%s shortcuts=%s: %d behaviours, %d distinct states, all Layer P contracts hold in the model (%.0fs); replayed through the real code: %d, drift %d" % (
         prop, kw.get("family", "tri"), kw.get("stride", 1), kw.get("use_shortcuts", True), len(behaviours), res["distinct"], dt, n, len(drift)))
